@@ -113,6 +113,26 @@ CLAIMED = {
    note=TB + "svf_string's output separator/bullets are parsed by the check, not modelled.",
    technique="Coq proofs over translator-generated flag tables and sites + CLI correspondence + paired-run monotonicity relation",
    ref="DESIGN.md §2 C09"),
+ "C05": dict(
+   text="Theorems (any 32-byte hash function, any tweak-check predicate): for every control block of 33+32m bytes, script and program, "
+        "stepping the commitment to the end yields Done exactly when BIP341's rule holds - TapLeaf hash folded with the m path nodes "
+        "(smaller hash first) then the tweak check with the parity bit; after j steps the displayed hash is the BIP341 value; the stored leaf "
+        "hash is the TapLeaf hash; the byte-wise comparison is the numeric order; accepted control sizes are exactly 33+32m, m <= 128 "
+        "(generated constants). Tie: TaprootCommitmentEnv::Iterate stepped to the end on commitments built by an independent BIP341 "
+        "implementation (path 0..128, all leaf versions, nodes </>/= running hash, keys on/off curve) and every single-field corruption.",
+   note=TB + "CheckTapTweak (secp256k1) and SHA-256 are parameters of the theorems; in the correspondence the tweak check of the model is answered by tools/refcrypto.py (pure-python BIP340/341 reference) and SHA-256 is the Gallina transcription.",
+   technique="Coq proof (induction over the path) + differential correspondence with an oracle for the curve operation",
+   ref="DESIGN.md §2 C05"),
+ "C06": dict(
+   text="Theorems for EVERY symmetric node hash, every n >= 1 and every leaf index: a tree is always built and contains exactly the leaves in "
+        "order; the proof emitted for leaf i, folded from its hash, equals the root the address commits to; proof length <= tree height, and "
+        "height <= 128 for all n <= 1024 (finite sweep, bound stated); the address and output key do not depend on the selected leaf; the "
+        "bech32m address decodes back to the output key. PARTIAL (stated): the reported sighash being the BIP341 digest belongs to C02; "
+        "'a signature over it validates' is exercised, not proved. Tie: the real tap binary on every (n, index), n <= 12 (64 thorough) and "
+        "random n up to 200 (1024): address, witness script and control block vs model; the debugger's commitment check on tap's output.",
+   note=TB + "secp256k1_xonly_pubkey_tweak_add is an oracle answered by tools/refcrypto.py.",
+   technique="Coq proof (induction on the script tree, generic in the hash) + exhaustive (n, index) correspondence with the tap binary",
+   ref="DESIGN.md §2 C06"),
 }
 
 NOT_YET = {}
